@@ -35,6 +35,10 @@ def checkLine (oc : Bool) (line : String) : Option (List String × String) :=
     (FBV.DrvES.checkES pre post).map fun (v, nt) => (v, if nt then "es_nontrivial" else "es_trivial")
   | [("EB" :: pre), p1, p2] =>
     (FBV.DrvES.checkEB pre p1 p2).map fun (v, nt) => (v, if nt then "eb_nontrivial" else "eb_trivial")
+  | [("CH" :: pre), impl, std, std2] =>
+    (FBV.DrvAD.checkCH pre impl std std2).map fun (v, nt) => (v, if nt then "ch_nontrivial" else "ch_trivial")
+  | [("TK" :: pre), impl, std, std2] =>
+    (FBV.DrvAD.checkTK oc pre impl std std2).map fun (v, nt) => (v, if nt then "tk_nontrivial" else "tk_trivial")
   | [("CH" :: pre), impl, std] =>
     (FBV.DrvAD.checkCH pre impl std).map fun (v, nt) => (v, if nt then "ch_nontrivial" else "ch_trivial")
   | [("CB" :: pre), impl, std] =>
